@@ -322,18 +322,15 @@ Definition m_mismatch (c : call) : res :=
   end.
 
 (* ==== subseq.go ====================================================================================== *)
-(* the type switch has no `case nil`; start is required; end nil or absent = length; then
-   ta[start:end] — a Go panic when end < start *)
+(* start is required; end nil or absent = length; every arm of the type switch (`case nil` is the list of
+   length 0) checks len < start || len < end; then ta[start:end] — a Go panic when end < start *)
 Definition m_subseq (c : call) : res :=
-  match c_seq c with
-  | SNil => RErr EType
-  | s => let l := elems s in
-         let st := match c_start c with Some n => n | None => 0%nat end in
-         let e := match c_end c with Some n => n | None => length l end in
-         if ((length l <? st) || (length l <? e))%nat then RErr EError
-         else if (e <? st)%nat then RErr EFault
-         else RSeq (slice st e l)
-  end.
+  let l := elems (c_seq c) in
+  let st := match c_start c with Some n => n | None => 0%nat end in
+  let e := match c_end c with Some n => n | None => length l end in
+  if ((length l <? st) || (length l <? e))%nat then RErr EError
+  else if (e <? st)%nat then RErr EFault
+  else RSeq (slice st e l).
 
 (* ==== replace.go ===================================================================================== *)
 Definition replace_check (start : option nat) (e : option nat) (size : nat) : option nat (* None: error *) :=
@@ -384,7 +381,7 @@ Definition m_reverse_list (l : list Z) : list Z :=
 Definition m_reverse (c : call) : res := RSeq (m_reverse_list (elems (c_seq c))).
 
 (* ==== merge.go ======================================================================================= *)
-(* slip.CoerceToList(nil).(slip.List) is a failed type assertion.  The element of the first sequence
+(* seq, _ := slip.CoerceToList(arg).(slip.List): nil is the empty list.  The element of the first sequence
    is taken when predicate(k1, k2) holds, otherwise the element of the second. *)
 Definition lt_of (t : testarg) (a b : Z) : bool := test2 t a b.
 Fixpoint m_merge_lists (t : testarg) (k : option keyfn) (l1 : list Z) : list Z -> list Z :=
@@ -395,10 +392,7 @@ Fixpoint m_merge_lists (t : testarg) (k : option keyfn) (l1 : list Z) : list Z -
     | x :: a, y :: b => if lt_of t (key_app k x) (key_app k y) then x :: m_merge_lists t k a l2 else y :: inner b
     end.
 Definition m_merge (c : call) : res :=
-  match c_seq c, c_seq2 c with
-  | SNil, _ | _, SNil => RErr EFault
-  | s1, s2 => RSeq (m_merge_lists (c_test c) (c_key c) (elems s1) (elems s2))
-  end.
+  RSeq (m_merge_lists (c_test c) (c_key c) (elems (c_seq c)) (elems (c_seq2 c))).
 
 (* ==== union.go intersection.go set-difference.go subsetp.go ========================================= *)
 (* union: one pass over list-1 then list-2 keeping an element unless test(kept-key, key) holds for a key
@@ -447,38 +441,30 @@ Definition m_set_difference (c : call) : res :=
     let keys2 := map (key_app (c_key c)) (elems (c_seq2 c)) in
     RSeq (filter (fun x => negb (existsb (fun k2 => test2 t (key_app (c_key c) x) k2) keys2)) (elems (c_seq c)))
   else RErr EType.
+(* subsetp: list, ok = arg.(slip.List); if !ok && arg != nil { TypePanic } — nil is the empty list *)
 Definition m_subsetp (c : call) : res :=
-  match c_seq c, c_seq2 c with
-  | SList l1, SList l2 =>
-      let t := ignore_test_not (c_test c) in
-      let keys2 := map (key_app (c_key c)) l2 in
-      if forallb (fun x => existsb (fun k2 => test2 t (key_app (c_key c) x) k2) keys2) l1 then RTrue else RNil
-  | _, _ => RErr EType
-  end.
+  if is_list_arg (c_seq c) && is_list_arg (c_seq2 c) then
+    let t := ignore_test_not (c_test c) in
+    let keys2 := map (key_app (c_key c)) (elems (c_seq2 c)) in
+    if forallb (fun x => existsb (fun k2 => test2 t (key_app (c_key c) x) k2) keys2) (elems (c_seq c)) then RTrue else RNil
+  else RErr EType.
 
 (* ==== every.go some.go notany.go notevery.go ========================================================= *)
 (* for n := 0; ; n++: the sequences are inspected in order, the first that is exhausted ends the
-   loop; the Go nil is not among the cases of the type switch (type error) *)
-Inductive qres := QErr | QVals (l : list bool).
-Definition quant_vals (c : call) : qres :=
+   loop; `case nil` (the empty list) ends it at once.  Every representation of the model is among the
+   cases of the type switch, so there is no error outcome. *)
+Definition quant_vals (c : call) : list bool :=
   match c_nseq c with
-  | 1%nat => match c_seq c with SNil => QErr | s => QVals (map (pred_app (c_pred c)) (elems s)) end
-  | _ => match c_seq c, c_seq2 c with
-         | SNil, _ => QErr
-         | s1, SNil => match elems s1 with [] => QVals [] | _ => QErr end    (* an exhausted first sequence ends the loop first *)
-         | s1, s2 => QVals (map (fun xy => test2 (c_test c) (fst xy) (snd xy)) (combine (elems s1) (elems s2)))
-         end
+  | 1%nat => map (pred_app (c_pred c)) (elems (c_seq c))
+  | _ => map (fun xy => test2 (c_test c) (fst xy) (snd xy)) (combine (elems (c_seq c)) (elems (c_seq2 c)))
   end.
 Definition m_quant (c : call) : res :=
-  match quant_vals c with
-  | QErr => RErr EType
-  | QVals vs =>
-      match c_fn c with
-      | FEvery => if forallb (fun b => b) vs then RTrue else RNil
-      | FSome => if existsb (fun b => b) vs then RTrue else RNil          (* returns t, not the value *)
-      | FNotany => if existsb (fun b => b) vs then RNil else RTrue
-      | _ => if forallb (fun b => b) vs then RNil else RTrue
-      end
+  let vs := quant_vals c in
+  match c_fn c with
+  | FEvery => if forallb (fun b => b) vs then RTrue else RNil
+  | FSome => if existsb (fun b => b) vs then RTrue else RNil          (* returns t, not the value *)
+  | FNotany => if existsb (fun b => b) vs then RNil else RTrue
+  | _ => if forallb (fun b => b) vs then RNil else RTrue
   end.
 
 (* ==== map.go mapcar.go =============================================================================== *)
@@ -487,13 +473,8 @@ Definition map_vals (c : call) : list Z :=
   | 1%nat => map (key_app (c_key c)) (elems (c_seq c))
   | _ => map (fun xy => binop_app (c_op c) (fst xy) (snd xy)) (combine (elems (c_seq c)) (elems (c_seq2 c)))
   end.
-Definition m_map (c : call) : res :=
-  match c_seq c, c_nseq c, c_seq2 c with
-  | SNil, _, _ => RErr EFault                      (* CoerceToList(nil).(slip.List) *)
-  | _, 1%nat, _ => RSeq (map_vals c)
-  | _, _, SNil => RErr EFault
-  | _, _, _ => RSeq (map_vals c)
-  end.
+(* map: seqs[i], _ = slip.CoerceToList(a).(slip.List) — nil is the empty list *)
+Definition m_map (c : call) : res := RSeq (map_vals c).
 Definition m_mapcar (c : call) : res :=
   match c_seq c, c_nseq c, c_seq2 c with
   | (SList _ | SNil), 1%nat, _ => RSeq (map_vals c)                 (* nil is the empty list (since 99845b4) *)
@@ -528,11 +509,8 @@ Definition m_reduce_list (c : call) (l : list Z) : res :=
             end
       end
   end end.
-Definition m_reduce (c : call) : res :=
-  match c_seq c with
-  | SNil => RErr EFault
-  | s => m_reduce_list c (elems s)
-  end.
+(* list, _ := slip.CoerceToList(args[1]).(slip.List): nil is the empty list *)
+Definition m_reduce (c : call) : res := m_reduce_list c (elems (c_seq c)).
 
 (* ==== concatenate.go ================================================================================= *)
 Definition m_concatenate (c : call) : res := RSeq (elems (c_seq c) ++ elems (c_seq2 c)).
